@@ -29,6 +29,9 @@ REnd == [r |-> "at", at |-> "end"]
 \* constructs the generator does not support: lookahead nlookahead lookbehind nlookbehind
 \* backref atomic possessive  (body is the operand where there is one, else RSeq(<<>>))
 RUns(kind, body) == [r |-> "uns", kind |-> kind, body |-> body]
+\* pattern text outside the modelled grammar (inline flags, ...): no language and no generator
+\* model here; it can still be carried through traces whose verdict does not need either
+RRaw(text) == [r |-> "raw", text |-> text]
 
 SupportedCats == {"digit", "word"}
 MAX_REPEAT_OPCODE == 44      \* re._constants.MAX_REPEAT on CPython 3.12
@@ -97,9 +100,21 @@ REnds(r, w, i) ==
     [] r.r = "at" -> IF r.at = "start" THEN (IF i = 0 THEN {i} ELSE {})
                      ELSE (IF i = Len(w) \/ (i = Len(w) - 1 /\ w[Len(w)] = 10) THEN {i} ELSE {})
     [] r.r = "uns" -> {}
+    [] r.r = "raw" -> {}
 
 RFullMatch(r, w) == Len(w) \in REnds(r, w, 0)
 RSearch(r, w) == \E i \in 0..Len(w) : REnds(r, w, i) # {}
+
+RECURSIVE RHasNeg(_)
+\* a negated class somewhere: its candidates are enumerated from a Python set, so which
+\* letter an index selects is not predictable (only that it is *some* candidate)
+RHasNeg(r) ==
+  CASE r.r = "notlit" -> TRUE
+    [] r.r = "class" -> r.neg
+    [] r.r \in {"group", "rep", "uns"} -> RHasNeg(r.body)
+    [] r.r = "alt" -> \E a \in DOMAIN r.alts : RHasNeg(r.alts[a])
+    [] r.r = "seq" -> \E a \in DOMAIN r.parts : RHasNeg(r.parts[a])
+    [] OTHER -> FALSE
 
 RECURSIVE RHasUns(_)
 RHasUns(r) ==
@@ -205,5 +220,6 @@ RGen(r, tape, p, mr) ==
              ELSE RGenRepeat(r.body, PickInt(SelAt(tape, p), r.lo, hi), tape, p + 1, mr, <<>>)
     [] r.r = "at" -> ROk(<<>>, p)
     [] r.r = "uns" -> RErr("ValueError", p)
+    [] r.r = "raw" -> RErr("UNMODELLED", p)
 
 =============================================================================
